@@ -76,6 +76,15 @@ pub fn check_shape(mode: GameMode, pts: &[PathControlPoint], bufs: &mut CurveBuf
     }
     let nd = nat.dist();
     let np = nat.path();
+    // straight polylines: the natural path is the list of control points itself (repeated points included - the
+    // "ends in two identical points" exception is decided on them)
+    if pts.iter().all(|p| p.path_type.is_none_or(|t| t.kind == SplineType::Linear)) && pts.len() >= 2 {
+        let want: Vec<rosu_map::util::Pos> = pts.iter().map(|p| p.pos).collect();
+        if !same_points(np, &want) {
+            viol("linear-natural-path", format!("natural path {np:?} is not the control polygon"), None, acc);
+            return;
+        }
+    }
     if nat.lengths().first() != Some(&0.0) {
         viol("lengths-start", format!("lengths[0] = {:?}", nat.lengths().first()), None, acc);
     }
